@@ -119,12 +119,19 @@ theorem C07_deadlock_free (hn : NoFail P) (hcap : 1 ≤ P.cap) (h : Reachable P 
     ∃ e : Event, e.isProgress = true ∧ (step P s e).isSome = true :=
   deadlock_free_of_inv hcap (inv_reachable h).a (inv_reachable h).b (invD_reachable_noFail hn h) hc
 
-/-- full statement of progress (every call returns): the relation "t is reached from s by a progress event"
-restricted to reachable states is well-founded once no further calls are started and the source is finite.
-NOT proved (see `partial` in tools/props/C07.py): together with `C07_deadlock_free` it would give termination
-of every call; what is proved is deadlock freedom in every reachable state. -/
+/-- full statement of progress (every call returns): once no further calls are started there is no infinite
+sequence of progress events, so by `C07_deadlock_free` every call in progress runs to its return.
+NOT proved (listed under `partial` in tools/props/C07.py); what is proved is deadlock freedom in every
+reachable state. -/
 def C07_progress_statement (P : Params) : Prop :=
-  (∀ p, ∃ n, P.src p n ≠ .item 0 ∧ ∀ v, P.src p n ≠ .item v) →
-  WellFounded (fun t s : State => Reachable P s ∧ ∃ e : Event, e.isProgress = true ∧ step P s e = some t)
+  NoFail P → 1 ≤ P.cap → ∀ s, Reachable P s → inCall s →
+    ¬ ∃ f : Nat → State, f 0 = s ∧ ∀ n, ∃ e : Event, e.isProgress = true ∧ step P (f n) e = some (f (n + 1))
+
+/-- scripts that never fail never set the failure flags (used by C10) -/
+theorem C07_no_failure (hn : NoFail P) (h : Reachable P s) : s.thrown = false ∧ s.exc = false := noThrow hn h
+
+/-- the ghost flag `srcEnded` means what it says: the source reported the end at position `pidx` (used by C10) -/
+theorem C07_src_end (h : Reachable P s) (he : s.srcEnded = true) : P.src s.pass s.pidx = .fin :=
+  ((inv_reachable h).c2.srcEnd he).1
 
 end DmlcModel.Props.C07
